@@ -142,6 +142,10 @@ CORPUS_SUPER = [
     ("a > b", "a > x b"), ("a + b", "a + x b"), ("a ~ b", "a ~ x b"), (".a > .c", ".a > .b .c"), ("x > z", "x > y z"),
     (":not(.a)", ":not(.a.b)"), (":not(.a.b)", ":not(.a)"), (":not(.a, .b)", ":not(.a, .b)"), (":not(.a, .b)", ":not(.a)"),
     (":not(.a)", ":not(.a, .b)"), (":not(a.x, .y)", ":not(a.x, .y)"), (":not(.x .y)", ":not(.y)"), (":not(.y)", ":not(.x .y)"),
+    # attributes that differ only in the modifier: `i` matches more values than none / `s`
+    ("[t=v]", "[t=v i]"), ("[t=v i]", "[t=v]"), ("[t=v s]", "[t=v i]"), ("[t=v i]", "[t=v s]"), ("a[t=v]", "a[t=v i].x"),
+    ("[c=d]", "[c=d i]"), (":not([t=v i])", ":not([t=v])"), (":not([t=v])", ":not([t=v i])"), ("[t=v i]", "[t=v i]"),
+    ("[t=\"v w\" i]", "[t=\"v w\"]"), ("[t=\"v w\"]", "[t=\"v w\" i]"),
     # conservative answers that must stay sound
     ("a > b", "x a > b"), ("a b", "a > x b"), ("a ~ b", "a + b"), ("a", "a.x"), (":is(a, .x)", "a"),
     (":not(.x)", ":not(.x, .y)"), ("a", "a::before"), (".x", ".x:after"),
@@ -179,11 +183,32 @@ def gen_not_pair(rng):
     return ([a], [b]) if rng.random() < 0.5 else ([b], [a])
 
 
+ATTR_FORMS = [None, "v", "v i", "v s", "V", "V i", "w"]
+
+
+def gen_attr_pair(rng):
+    """compounds / complexes that differ only in the form of one attribute selector (value case, `i` / `s` modifier)"""
+    host = [s for s in G.gen_compound(rng, 0, False, False) if s[0] in ("type", "cls", "pc")]
+    f1, f2 = rng.choice(ATTR_FORMS), rng.choice(ATTR_FORMS)
+    a = G._order(host + [("attr", "t", f1)])
+    b = G._order(host + [("attr", "t", f2)] + ([G.gen_simple(rng, ["cls", "id"])] if rng.random() < 0.3 else []))
+    if rng.random() < 0.3:
+        pre = [G.gen_compound(rng, 0, False, False), rng.choice(G.COMBS)]
+        return [pre + [a]], [pre + [b]]
+    if rng.random() < 0.2:
+        k = rng.choice(G.SELS)
+        return [[[("sel", k, [[a]])]]], [[[("sel", k, [[b]])]]]
+    return [[a]], [[b]]
+
+
 def gen_super_pairs(rng, n):
     pairs = []
     for _ in range(n):
         r = rng.random()
-        if r < 0.12:
+        if r < 0.05:
+            pairs.append(gen_attr_pair(rng))
+            continue
+        if r < 0.15:
             pairs.append(gen_not_pair(rng))
             continue
         if r < 0.45:
@@ -217,6 +242,24 @@ WEIRD = ["> a", "a >", "a > > b", "+ a ~ b", "a ~", ":not(a >)", ":is(> a)", "a,
          "a:not(:not(.x))", ":is(:is(a))", ":not(%p)", ":is(%p)", "%p", "%p.x", "a::before:hover", "*", "**", "a*",
          ":not(a, b > c)", ":where(a b, c)", ".\\31 x", "#i#j", "a:after::before", ":matches(.x):matches(.y)",
          ":-moz-any(a, b)", ":not(.x .y)", "a ~ b + c > d e", "::before", ":before:after"]
+
+
+PSEUDO_NAMES = ["not", "is", "matches", "where", "any", "has", "host", "host-context", "slotted", "current", "nth-child",
+                "nth-last-child", "nth-of-type", "cue", "cue-region", "part", "dir", "lang", "state", "highlight", "view-transition-group",
+                "-moz-any", "-webkit-any", "foo", "before", "after", "first-line", "selection", "past", "future"]
+PSEUDO_ARGS = ["b", ".x", "a b", "> a", "a, .x", "2n+1", "2n+1 of .x", "en", "ltr", "*", ":hover", "b::after", "%p"]
+
+
+def pseudo_vocabulary(rng, per_name=2):
+    """pseudo-classes and pseudo-elements WITH arguments over every name the parser knows (and unknown ones), bare and in a
+    compound, for the no-crash clause"""
+    out = []
+    for name in PSEUDO_NAMES:
+        for colons in (":", "::"):
+            for arg in rng.sample(PSEUDO_ARGS, per_name):
+                p = f"{colons}{name}({arg})"
+                out.append(rng.choice([p, "video" + p, ".x" + p, "a > b" + p, p + ":hover", f"{p}, .x", f".x, video{p}"]))
+    return out
 
 
 # ---------------------------------------------------------------------------------------------
@@ -381,7 +424,11 @@ def run(tier, seed):
         else:
             a, b = G.gen_list(rng, 2, max_compounds=2), G.gen_list(rng, 2, max_compounds=2)
         ucases.append((G.list_text(a), G.list_text(b)))
-    ucases += [("#i", "#j"), ("a", "b"), (".x", "a:hover"), ("::before", ":after"), (".x::before", ".y"), ("*", ".x"),
+    for _ in range(60 if not big else 500):
+        a, b = gen_attr_pair(rng)
+        ucases.append((G.list_text(a), G.list_text(b)))
+    ucases += [("[c=d i]", "[c=d]"), ("[c=d]", "[c=d i]"), ("[t=v i]", "[t=v s]"), ("a[t=v i]", ".x[t=v]"),
+               ("#i", "#j"), ("a", "b"), (".x", "a:hover"), ("::before", ":after"), (".x::before", ".y"), ("*", ".x"),
                ("a", "*"), (".x:hover", ".y::before"), ("a > b", "c > d"), ("a b", "c d"), ("a + b", "c ~ b"), ("#i a", "#i b")]
     impl = eval_exprs(pool, [f"selector-unify({q(a)}, {q(b)})" for a, b in ucases])
     lines = []
@@ -619,7 +666,8 @@ def run(tier, seed):
         ck.count(("parse", a), eqv.startswith("ok holds") and int(eqv.split(" ")[3]) > 0)
 
     # no crash on anything the style-rule parser accepts (full + weird alphabet)
-    weird = list(WEIRD) + [G.list_text(G.gen_list(rng, placeholders=True)) for _ in range(150 if not big else 800)]
+    vocab = pseudo_vocabulary(rng, 2 if not big else 6)
+    weird = list(WEIRD) + vocab + [G.list_text(G.gen_list(rng, placeholders=True)) for _ in range(150 if not big else 800)]
     accepted = eval_rules(pool, [f"{w} {{ i: {k} }}" for k, w in enumerate(weird)])
     exprs, owner = [], []
     for k, w in enumerate(weird):
@@ -630,13 +678,24 @@ def run(tier, seed):
             ck.hist("weird:rejected-by-style-rule-parser")
             continue
         ck.hist("weird:accepted")
-        o = rng.choice(weird)
-        for e in (f"is-superselector({q(w)}, {q(o)})", f"is-superselector({q(o)}, {q(w)})", f"is-superselector({q(w)}, {q(w)})",
+        o = rng.choice(weird) if rng.random() < 0.5 else rng.choice(vocab)
+        for e in (f"selector-extend({q(w)}, {q('.x')}, {q(w)})", f"selector-replace({q(w)}, {q('.x')}, {q(o)})",
+                  f"selector-unify({q(o)}, {q(w)})",f"is-superselector({q(w)}, {q(o)})", f"is-superselector({q(o)}, {q(w)})", f"is-superselector({q(w)}, {q(w)})",
                   f"selector-unify({q(w)}, {q(o)})", f"selector-nest({q(o)}, {q(w)})", f"selector-append({q(o)}, {q(w)})",
                   f"selector-extend({q(w)}, {q('.x')}, {q(o)})", f"selector-replace({q(o)}, {q('.x')}, {q(w)})",
                   f"selector-parse({q(w)})", f"simple-selectors({q(w)})"):
             exprs.append(e)
             owner.append(w)
+    ext_sheets = []
+    for w in vocab:
+        first = w.split(",")[0].strip()
+        ext_sheets.append(f".x, {w} {{ i: 0 }}\n{first} {{ i: 1; @extend .x; }}")
+        ext_sheets.append(f"{w} {{ i: 0 }}\n.y {{ i: 1; @extend .x !optional; }}\n.x {w} {{ i: 2 }}")
+    for sh, ans in zip(ext_sheets, eval_rules(pool, ext_sheets)):
+        ck.hist("weird-@extend:" + ans[0])
+        ck.count(("weird-extend", sh), ans[0] == "ok")
+        if ans[0] in ("panic", "timeout", "abort", "bad"):
+            fail(sh, {"impl_observation": ans[:2]}, ["crash"])
     # small batches: many of these are errors by design
     for e, g in zip(exprs, eval_exprs(pool, exprs, batch=12)):
         ck.hist("weird-call:" + g[0])
